@@ -798,6 +798,13 @@ func checkParserBounds(c *core.Ctx, p *load.Prog, rule string) {
 			}
 			nSites++
 			proof, why := bc.prove(s)
+			if proof == "" && bc.builtLocally(fd, s.x) {
+				// the length of a slice this function builds itself (literal, make,
+				// append) is a relation between program variables, not an input
+				// quantity the enumerated idioms can bound: no verdict
+				c.Undecide("%s: %s at %s indexes a slice the function builds itself; its length is a program invariant the rule has no idiom for", name, s.what, p.Pos(s.node.Pos()))
+				return true
+			}
 			counts[name+"\x00"+s.what]++
 			key := fmt.Sprintf("%s: %s in bounds (#%d)", name, s.what, counts[name+"\x00"+s.what])
 			recs = append(recs, rec{key: key, pos: p.Pos(s.node.Pos()), ok: proof != "", why: why + " — the token counts and token text are chosen by the input, so this is an input on which ReadFile panics"})
@@ -813,4 +820,78 @@ func checkParserBounds(c *core.Ctx, p *load.Prog, rule string) {
 	}
 	c.Count("parser_index_sites", nSites)
 	c.Floor("parser_index_sites", 10)
+}
+
+
+// builtLocally: x is a local variable of fd (not a parameter, not a result of
+// a call) that is only ever assigned a composite literal, make, nil or
+// append(x, …).
+func (bc *boundsChecker) builtLocally(fd *ast.FuncDecl, x ast.Expr) bool {
+	id, ok := ast.Unparen(x).(*ast.Ident)
+	if !ok {
+		return false
+	}
+	o, ok := bc.info.ObjectOf(id).(*types.Var)
+	if !ok || isParamOf(bc.info, fd, o) || !(fd.Body.Pos() <= o.Pos() && o.Pos() < fd.Body.End()) {
+		return false
+	}
+	if _, isSlice := o.Type().Underlying().(*types.Slice); !isSlice {
+		return false
+	}
+	local := true
+	defs := 0
+	ast.Inspect(fd.Body, func(n ast.Node) bool {
+		switch y := n.(type) {
+		case *ast.ValueSpec:
+			for i, nm := range y.Names {
+				if bc.info.Defs[nm] == types.Object(o) {
+					defs++
+					if i < len(y.Values) && !bc.freshSlice(y.Values[i], o) {
+						local = false
+					}
+				}
+			}
+		case *ast.AssignStmt:
+			for i, l := range y.Lhs {
+				lid, isId := ast.Unparen(l).(*ast.Ident)
+				if !isId || bc.info.ObjectOf(lid) != types.Object(o) {
+					continue
+				}
+				defs++
+				if len(y.Lhs) != len(y.Rhs) || !bc.freshSlice(y.Rhs[i], o) {
+					local = false
+				}
+			}
+		case *ast.RangeStmt:
+			for _, kv := range []ast.Expr{y.Key, y.Value} {
+				if kid, isId := kv.(*ast.Ident); isId && bc.info.ObjectOf(kid) == types.Object(o) {
+					local = false
+				}
+			}
+		}
+		return true
+	})
+	return local && defs > 0
+}
+
+func (bc *boundsChecker) freshSlice(e ast.Expr, o *types.Var) bool {
+	e = ast.Unparen(e)
+	switch y := e.(type) {
+	case *ast.CompositeLit:
+		return true
+	case *ast.Ident:
+		return y.Name == "nil"
+	case *ast.CallExpr:
+		fn := wire.Canon(y.Fun)
+		if fn == "make" {
+			// make with an input-derived length is the G4 idiom: not "built locally"
+			return len(y.Args) >= 2 && func() bool { c, isC := constInt(bc.info, y.Args[1]); return isC && c == 0 }()
+		}
+		if fn == "append" && len(y.Args) > 0 {
+			if aid, ok := ast.Unparen(y.Args[0]).(*ast.Ident); ok && bc.info.ObjectOf(aid) == types.Object(o) {
+				return true
+			}
+		}
+	}
+	return false
 }
